@@ -103,6 +103,8 @@ def observe(res, app='shop'):
         'bookkeeping_writes': [e['sql'][:80] for e in res['events'] if e['ev'] == 'book'
                                and not e['sql'].lstrip().upper().startswith('SELECT')],
         'signals': [e['ev'] for e in res['events'] if e['ev'] in ('evolving', 'evolved', 'evolving_failed')],
+        'all_signals': [[e['ev'], e.get('app'), e.get('name') or e.get('labels') or e.get('models')]
+                        for e in res['events'] if e['ev'] not in ('stmt', 'stmt_fail', 'book', 'constructed')],
     }
 
 
@@ -132,6 +134,16 @@ def replay(cfg, idx=0, M=3):
             project.deploy('shop', src, evos)
             deploy_companions(project, companions, final=False)
             r = project.run({'action': 'evolve_api', 'app_prefixes': apps})
+            if r['outcome'] != 'ok':
+                out['errors'].append(('start', (r.get('error') or {}).get('msg')))
+                return out
+        elif kind == 'legacy':
+            # the table as 0001_initial would create it, made by hand; nothing on record anywhere
+            cols = ''.join(', "c%d" integer NULL' % i for i in range(1, K + 1))
+            r = project.run({'action': 'exec_sql', 'app_prefixes': apps, 'statements': [
+                ['CREATE TABLE "shop_item" ("id" integer NOT NULL PRIMARY KEY AUTOINCREMENT, '
+                 '"name" varchar(20) NOT NULL%s)' % cols, []],
+                ['INSERT INTO "shop_item" ("name") VALUES (%s)', ['kept']]]})
             if r['outcome'] != 'ok':
                 out['errors'].append(('start', (r.get('error') or {}).get('msg')))
                 return out
